@@ -56,7 +56,8 @@ def floors(tier):
           'ev:rest:generalized': 24 * (1 if tier == 'quick' else 10),
           'ev:rest:spring': 8 * (1 if tier == 'quick' else 10),
           'ev:rest:positional': 8 * (1 if tier == 'quick' else 10),
-          'momentum_models_with_actuators': 6, 'momentum_models_with_limits': 6}
+          'momentum_models_with_actuators': 6, 'momentum_models_with_limits': 6,
+          'rest_models_three_hinge_limited': 6 * (1 if tier == 'quick' else 10)}
 
 
 def total_momentum(mj, pos, rot, ang, vel):
@@ -231,8 +232,16 @@ def run(job, mon):
   # rest
   for c in range(job['first'], job['first'] + job['count']):
     rng = np.random.default_rng([job['seed'], c, 444])
-    mode = c % 3
-    if mode == 0:
+    mode = c % 4
+    if mode == 3:
+      # three-hinge stacks of either handedness with (asymmetric) ranges on
+      # every axis: the class where a limit applied with the wrong sign kicks
+      # a resting system that is inside its limits
+      spec = gen.gen_model(rng, ortho=True, stack_kinds='hinge', min_stack=3,
+                           limit_prob=0.9, stiffness=False,
+                           n_links=int(rng.integers(1, 4)))
+      mon.count('rest_models_three_hinge_limited')
+    elif mode == 0:
       spec = gen.gen_model(rng, ortho=True, stack_kinds='invertible',
                            stiffness=False)
     else:
